@@ -5,6 +5,13 @@ V = "/verif"
 props = [json.loads(l) for l in open(V + "/properties.jsonl")]
 
 CLAIMED = {
+ "C15": dict(
+    text="SIBLING/ORDER/ERRFLOW rules over lib/ext2fs/ext_attr.c: the space accounting of ext2fs_xattr_set and the layout of ext2fs_xattrs_write derive the in-inode capacity from the same chain (i_extra_isize, else s_want_extra_isize, else the same constant), the chosen value is stored, the accounting reserves magic word + null entry; "
+         "accounting (space_used, xattr_array_update) and writer (write_xattrs_to_buffer) agree that an entry with a value inode takes no value space and use the same entry/value size macros; block entries are placed by the sorted-position search over exactly the block part; "
+         "the writer hashes every block entry and every value-inode entry, the block path asks for hashes and the inode path does not, the reader recomputes and rejects a mismatch; replacing an entry drops the old value-inode reference before overwriting it, a value inode created before a later failure is released on every error path, remove drops the reference and adjusts the in-inode count by position; "
+         "xattrs_write lays the block out before writing it, copies a shared block first (prep_ea_block_for_write), returns every writer failure, writes the inode on every successful path and can release an unneeded block; set/remove write the handle back and return its error. "
+         "Decides the agreement and pairing clauses for every set/remove history; does NOT decide that the sorted array is manipulated correctly for all sizes, nor placement decisions.",
+    ref="§8.6 C15", technique="static analysis: sibling agreement on constants and size macros, control-dependence, edge-gated must-pass, path-sensitive release pairing and error-flow"),
  "C18": dict(
     text="Exhaustiveness/ORDER/ERRFLOW/TABLE rules over misc/create_inode.c and debugfs/dump.c: the population switch has an arm for each of the seven host file types reaching that kind's creator; after every creator every path to the next directory entry passes set_inode_extra and set_inode_xattr with this entry's lstat buffer; "
          "set_inode_extra stores uid and gid (both halves, >>16), mode (type from the created inode, permission mask containing 07777) and the three timestamps, each from the same-named stat field, and writes the inode back; multiply-linked non-directories are looked up by (st_dev, st_ino) and the first member is recorded on every continuing path; "
@@ -124,7 +131,6 @@ CLAIMED = {
 NA_REASON = {
  "C07": "geometry arithmetic and option-compatibility logic over a combinatorial configuration space: numerical, no clause visible in the shape of the code; mke2fs -n is decided under C13, backup writing under C20",
  "C10": "history-dependent data-structure behaviour (leaf split, rec_len coalescing, hash order, hash values): runtime quantities; dir-block checksum wiring is decided under C14",
- "C15": "round-trip of a sorted in-memory array through three storage placements; placement, order and hash values are runtime quantities; xattr block checksum wiring is decided under C14",
 }
 
 checks = []
